@@ -1,4 +1,7 @@
 import AL.Model.Render
+import AL.Lemmas.RenderMatch
+import AL.Lemmas.RenderInv
+import AL.Lemmas.RenderSnippet
 /-
   C16 — every output format renders the diagnostics faithfully, one per line.
   Statements; proved theorems are added below by name.
@@ -55,5 +58,318 @@ def snippet_statement : Prop :=
 line terminators (nothing is invented). -/
 def split_lines_statement : Prop :=
   ∀ (src : List Nat), (∀ l ∈ splitLines src, 10 ∉ l) ∧ ((splitLines src).map (·.length)).sum ≤ src.length
+
+/-! ## Proofs
+
+Helper lemmas live in `AL/Lemmas/Render{Basic,Match,Inv,Snippet}.lean`. -/
+
+/-- the part of the header line after the file name: `:line:col: msg [kind]` -/
+def tailOf (d : Diag) : List Char :=
+  ':' :: (natChars d.line ++ ':' :: (natChars d.col ++ ':' :: ' ' :: (d.msg ++ ' ' :: '[' :: (d.kind ++ [']']))))
+
+theorem header_eq (d : Diag) : header d = d.file ++ tailOf d := by simp [header, tailOf]
+
+theorem tailOf_goodTail (d : Diag) (h1 : d.msg ≠ []) (h2 : AllDot d.msg) (h3 : d.kind ≠ []) (h4 : AllDot d.kind) :
+    GoodTail (tailOf d) :=
+  ⟨natChars d.line, natChars d.col, d.msg, d.kind, natChars_ne_nil _, natChars_ne_nil _,
+    natChars_isDigit _, natChars_isDigit _, h1, h2, h3, h4, rfl⟩
+
+theorem dummy_goodTail : GoodTail [':', '1', ':', '1', ':', ' ', 'x', ' ', '[', 'k', ']'] :=
+  ⟨['1'], ['1'], ['x'], ['k'], by decide, by decide, by decide, by decide, by decide, by decide,
+    by decide, by decide, rfl⟩
+
+/-- `FileOk` does not depend on the dummy tail used to state it: it says that no proper non-empty suffix
+of the file starts with `:digits:digits: ` (`sepPrefix`). -/
+theorem fileOk_iff (f : List Char) :
+    FileOk f ↔ f ≠ [] ∧ AllDot f ∧
+      ∀ pre rest, f = pre ++ rest → pre ≠ [] → rest ≠ [] → sepPrefix rest = false := by
+  unfold FileOk
+  constructor
+  · rintro ⟨h1, h2, h3⟩
+    refine ⟨h1, h2, fun pre rest hsplit hp hr => ?_⟩
+    have hrd : AllDot rest := fun c hc => h2 c (by rw [hsplit]; simp [hc])
+    have := matchTail_append_goodTail rest _ dummy_goodTail hr hrd
+    rw [h3 pre rest hsplit hp hr] at this
+    simpa using this.symm
+  · rintro ⟨h1, h2, h3⟩
+    refine ⟨h1, h2, fun pre rest hsplit hp hr => ?_⟩
+    have hrd : AllDot rest := fun c hc => h2 c (by rw [hsplit]; simp [hc])
+    have := matchTail_append_goodTail rest _ dummy_goodTail hr hrd
+    rw [h3 pre rest hsplit hp hr] at this
+    simpa using this
+
+/-- with a `FileOk` file no earlier split of the line lets the pattern's tail match, whatever the real tail is -/
+theorem fileOk_tail_none {f T : List Char} (hf : FileOk f) (hT : GoodTail T) :
+    ∀ pre rest, f = pre ++ rest → pre ≠ [] → rest ≠ [] → matchTail (rest ++ T) = none := by
+  obtain ⟨_, h2, h3⟩ := (fileOk_iff f).mp hf
+  intro pre rest hsplit hp hr
+  have hrd : AllDot rest := fun c hc => h2 c (by rw [hsplit]; simp [hc])
+  have := matchTail_append_goodTail rest T hT hr hrd
+  rw [h3 pre rest hsplit hp hr] at this
+  simpa using this
+
+theorem matchTail_tailOf (d : Diag) (h1 : d.msg ≠ []) (h2 : AllDot d.msg)
+    (h3 : ∀ a b, d.msg = a ++ [' ', '['] ++ b → a = []) (h4 : d.kind ≠ []) (h5 : AllDot d.kind) :
+    matchTail (tailOf d) = some (d.line, d.col, d.msg, d.kind) := by
+  unfold tailOf
+  rw [matchTail_digits _ _ _ (natChars_ne_nil _) (natChars_ne_nil _) (natChars_isDigit _) (natChars_isDigit _),
+    matchMsg_lazy d.msg [] d.kind h1 h2 (fun a b hab => h3 a b (by rw [hab]; simp)) h4 h5]
+  simp [natChars_toNat]
+
+/-- (a) matcher round trip, as stated. Uses `(String.ofList (natChars n)).toNat! = n` (`natChars_toNat`,
+from `Nat.toNat?_repr` in `Std`); no restatement with digit strings was necessary. -/
+theorem roundtrip : roundtrip_statement := by
+  intro d hF
+  have hT := matchTail_tailOf d hF.msgNonEmpty hF.msgOneLine hF.msgNoBracket hF.kindNonEmpty hF.kindOneLine
+  have hG := tailOf_goodTail d hF.msgNonEmpty hF.msgOneLine hF.kindNonEmpty hF.kindOneLine
+  have := matchFile_prefix d.file [] (tailOf d) _ hF.file.1 hF.file.2.1 (fileOk_tail_none hF.file hG) hT
+  rw [header_eq]; unfold matcher; rw [this]
+  cases d; rfl
+
+/-- (a), converse: `Faithful` really is the weakest condition — the round trip succeeds ONLY for faithful
+diagnostics. -/
+theorem faithful_of_roundtrip (d : Diag) (h : matcher (header d) = some d) : Faithful d := by
+  rw [header_eq] at h
+  unfold matcher at h
+  cases hmf : matchFile [] (d.file ++ tailOf d) with
+  | none => simp [hmf] at h
+  | some y =>
+    obtain ⟨f, l, c, m, k⟩ := y
+    simp only [hmf, Option.map_some, Option.some.injEq] at h
+    obtain ⟨pre, rest, hsplit, hpre, hf, hpd, hrest, hmin⟩ := matchFile_some _ _ _ _ hmf
+    simp only [List.nil_append] at hf
+    have hfile : pre = d.file := by rw [← hf, ← h]
+    subst hfile
+    have hrest' : rest = tailOf d := (List.append_cancel_left hsplit).symm
+    subst hrest'
+    have hx : (l, c, m, k) = (d.line, d.col, d.msg, d.kind) := by rw [← h]
+    rw [hx] at hrest
+    -- the message search
+    unfold tailOf at hrest
+    rw [matchTail_digits _ _ _ (natChars_ne_nil _) (natChars_ne_nil _) (natChars_isDigit _) (natChars_isDigit _)] at hrest
+    cases hmm : matchMsg [] (d.msg ++ ' ' :: '[' :: (d.kind ++ [']'])) with
+    | none => simp [hmm] at hrest
+    | some mk =>
+      obtain ⟨m1, k1⟩ := mk
+      simp only [hmm, Option.map_some, Option.some.injEq, Prod.mk.injEq] at hrest
+      obtain ⟨_, _, rfl, rfl⟩ := hrest
+      obtain ⟨m', hm', hne, hmd, _, hk, hkd, hminm⟩ := matchMsg_some _ _ _ _ hmm
+      simp only [List.nil_append] at hm'
+      subst hm'
+      have hG := tailOf_goodTail d hne hmd hk hkd
+      refine ⟨?_, hne, hmd, ?_, hk, hkd⟩
+      · rw [fileOk_iff]
+        refine ⟨hpre, hpd, fun p1 p2 hs hp1 hp2 => ?_⟩
+        have hrd : AllDot p2 := fun c hc => hpd c (by rw [hs]; simp [hc])
+        have := matchTail_append_goodTail p2 (tailOf d) hG hp2 hrd
+        rw [hmin p1 p2 hs hp1 hp2] at this
+        simpa using this.symm
+      · intro a b hab
+        cases a with
+        | nil => rfl
+        | cons x a' =>
+          exfalso
+          have hnone := hminm (x :: a') (' ' :: '[' :: b) (by rw [hab]; simp) (by simp) (by simp)
+          have hbd : AllDot (b ++ ' ' :: '[' :: d.kind) := by
+            intro c hc
+            simp only [List.mem_append, List.mem_cons] at hc
+            rcases hc with hc | rfl | rfl | hc
+            · exact hmd c (by rw [hab]; simp [hc])
+            · exact dot_space
+            · exact dot_lbracket
+            · exact hkd c hc
+          have hsome := matchKind_bracket (b ++ ' ' :: '[' :: d.kind) (by simp) hbd
+          simp only [List.cons_append, List.append_assoc] at hnone hsome
+          rw [hsome] at hnone
+          cases hnone
+
+/-- (a) as an equivalence -/
+theorem roundtrip_iff (d : Diag) : matcher (header d) = some d ↔ Faithful d :=
+  ⟨faithful_of_roundtrip d, roundtrip d⟩
+
+/-! ### a cleaner sufficient condition on the file, and decidable checkers -/
+
+/-- non-empty, one line, and no `:` followed by a digit (true of all paths except exotic ones) -/
+def FileSimple (file : List Char) : Prop :=
+  file ≠ [] ∧ (∀ c ∈ file, dot c = true) ∧ ∀ a c b, file = a ++ ':' :: c :: b → isDigit c = false
+
+theorem fileOk_of_fileSimple {f : List Char} (h : FileSimple f) : FileOk f := by
+  rw [fileOk_iff]
+  refine ⟨h.1, h.2.1, fun pre rest hsplit _ _ => ?_⟩
+  cases hsp : sepPrefix rest with
+  | false => rfl
+  | true =>
+    obtain ⟨c, r, hr, hc⟩ := sepPrefix_colonDigit hsp
+    have := h.2.2 pre c r (by rw [hsplit, hr])
+    rw [hc] at this; cases this
+
+/-- (a') the round trip under the cleaner file condition `FileSimple` (a corollary of (a): `FileSimple → FileOk`). -/
+def roundtrip_statement' : Prop :=
+  ∀ d : Diag, FileSimple d.file → d.msg ≠ [] → (∀ c ∈ d.msg, dot c = true) →
+    (∀ a b, d.msg = a ++ [' ', '['] ++ b → a = []) → d.kind ≠ [] → (∀ c ∈ d.kind, dot c = true) →
+    matcher (header d) = some d
+
+theorem roundtrip' : roundtrip_statement' :=
+  fun d hf h1 h2 h3 h4 h5 => roundtrip d ⟨fileOk_of_fileSimple hf, h1, h2, h3, h4, h5⟩
+
+/-- `noInnerBracket_spec` in the shape used by `Faithful.msgNoBracket` -/
+theorem noInnerBracket_spec' {m : List Char} (h : noInnerBracket m = true) :
+    ∀ a b, m = a ++ [' ', '['] ++ b → a = [] :=
+  fun a b hab => noInnerBracket_spec h a b (by rw [hab]; simp)
+
+/-- executable check implying `Faithful` (used for the examples) -/
+def faithfulCheck (d : Diag) : Bool :=
+  !d.file.isEmpty && d.file.all dot && noColonDigit d.file &&
+  !d.msg.isEmpty && d.msg.all dot && noInnerBracket d.msg &&
+  !d.kind.isEmpty && d.kind.all dot
+
+theorem faithful_of_check {d : Diag} (h : faithfulCheck d = true) : Faithful d := by
+  simp only [faithfulCheck, Bool.and_eq_true, Bool.not_eq_true', List.all_eq_true] at h
+  obtain ⟨⟨⟨⟨⟨⟨⟨h1, h2⟩, h3⟩, h4⟩, h5⟩, h6⟩, h7⟩, h8⟩ := h
+  refine ⟨fileOk_of_fileSimple ⟨?_, h2, noColonDigit_spec h3⟩, ?_, h5, ?_, ?_, h8⟩
+  · intro hn; simp [hn] at h1
+  · intro hn; simp [hn] at h4
+  · exact noInnerBracket_spec' h6
+  · intro hn; simp [hn] at h7
+
+/-- the running example: `.github/workflows/a.yml:12:34: property "x" is not defined in object type {a: string} [expression]` -/
+def exDiag : Diag :=
+  ⟨".github/workflows/a.yml".toList, 12, 34,
+    "property \"x\" is not defined in object type {a: string}".toList, "expression".toList⟩
+
+example : header exDiag =
+    ".github/workflows/a.yml:12:34: property \"x\" is not defined in object type {a: string} [expression]".toList := by
+  decide
+example : Faithful exDiag := faithful_of_check (by decide)
+example : matcher (header exDiag) = some exDiag := roundtrip exDiag (faithful_of_check (by decide))
+/-- a message may START with ` [` -/
+example : matcher (header ⟨"a.yml".toList, 1, 2, " [x".toList, "k".toList⟩) =
+    some ⟨"a.yml".toList, 1, 2, " [x".toList, "k".toList⟩ := roundtrip _ (faithful_of_check (by decide))
+
+/-- Some condition on the file is necessary: for the (exotic) file name `a:1:2: b` every other field is
+harmless, yet the header `a:1:2: b:3:4: m [k]` is parsed as file `a`, line 1, column 2, message `b:3:4: m`. -/
+theorem roundtrip_file_counterexample :
+    let d : Diag := ⟨"a:1:2: b".toList, 3, 4, ['m'], ['k']⟩
+    (d.file ≠ [] ∧ (∀ c ∈ d.file, dot c = true) ∧ d.msg ≠ [] ∧ (∀ c ∈ d.msg, dot c = true) ∧
+      (∀ a b, d.msg = a ++ [' ', '['] ++ b → a = []) ∧ d.kind ≠ [] ∧ (∀ c ∈ d.kind, dot c = true)) ∧
+    matcher (header d) = some ⟨['a'], 1, 2, "b:3:4: m".toList, ['k']⟩ ∧
+    matcher (header d) ≠ some d ∧ ¬ FileOk d.file := by
+  intro d
+  have hm : matcher (header d) = some ⟨['a'], 1, 2, "b:3:4: m".toList, ['k']⟩ := by
+    have hh : header d = header ⟨['a'], 1, 2, "b:3:4: m".toList, ['k']⟩ := by decide
+    rw [hh]
+    exact roundtrip _ (faithful_of_check (by decide))
+  have hne : matcher (header d) ≠ some d := by rw [hm]; decide
+  refine ⟨⟨by decide, by decide, by decide, by decide, ?_, by decide, by decide⟩, hm, hne, ?_⟩
+  · exact noInnerBracket_spec' (m := ['m']) (by decide)
+  · intro hf
+    exact hne (roundtrip d ⟨hf, by decide, by decide,
+      noInnerBracket_spec' (m := ['m']) (by decide),
+      by decide, by decide⟩)
+
+/-! ### (b) -/
+
+theorem header_bracket (f a b k : List Char) (l c : Nat) :
+    header ⟨f, l, c, a ++ [' ', '['] ++ b, k⟩ = header ⟨f, l, c, a, b ++ [' ', '['] ++ k⟩ := by
+  simp [header]
+
+/-- (b), corrected. The statement above is FALSE as written: the header of `⟨f,l,c, a ++ " [" ++ b, k⟩` is
+`f:l:c: a [b [k]`, so the kind the matcher returns is `b ++ " [" ++ k` — there is no `]` between `b` and
+` [k` (a `]` only shows up when it is part of `b`, as in the motivating example
+`character '[' is invalid [see docs]`, where `b = "see docs]"` and the kind is `see docs] [k`).
+Concrete counterexample to the original: `f = "a"`, `l = c = 1`, `a = "x"`, `b = ""`, `k = "k"`: the line is
+`a:1:1: x [ [k]`, the matcher returns message `x` and kind ` [k`, not `] [k`. -/
+def roundtrip_conv_statement' : Prop :=
+  ∀ (f k a b : List Char) (l c : Nat), FileOk f → a ≠ [] → (∀ x ∈ a, dot x = true) → (∀ x ∈ b, dot x = true) →
+    (∀ a1 a2, a = a1 ++ [' ', '['] ++ a2 → a1 = []) → k ≠ [] → (∀ x ∈ k, dot x = true) →
+    matcher (header ⟨f, l, c, a ++ [' ', '['] ++ b, k⟩) = some ⟨f, l, c, a, b ++ [' ', '['] ++ k⟩
+
+theorem roundtrip_conv' : roundtrip_conv_statement' := by
+  intro f k a b l c hf ha had hbd hnb hk hkd
+  rw [header_bracket]
+  apply roundtrip
+  refine ⟨hf, ha, had, hnb, by simp, ?_⟩
+  intro x hx
+  simp only [List.mem_append, List.mem_cons, List.not_mem_nil, or_false] at hx
+  rcases hx with (hx | rfl | rfl) | hx
+  · exact hbd x hx
+  · exact dot_space
+  · exact dot_lbracket
+  · exact hkd x hx
+
+theorem roundtrip_conv_counterexample : ¬ roundtrip_conv_statement := by
+  intro h
+  have hf : FileOk ['a'] := (faithful_of_check (d := ⟨['a'], 1, 1, ['x'], ['k']⟩) (by decide)).file
+  have hnb : ∀ a1 a2, ['x'] = a1 ++ [' ', '['] ++ a2 → a1 = [] :=
+    noInnerBracket_spec' (m := ['x']) (by decide)
+  have h1 := h ['a'] ['k'] ['x'] [] 1 1 hf (by decide) (by decide) (by decide) hnb (by decide) (by decide)
+  have h2 := roundtrip_conv' ['a'] ['k'] ['x'] [] 1 1 hf (by decide) (by decide) (by decide) hnb (by decide) (by decide)
+  rw [h2] at h1
+  revert h1; decide
+
+/-- the motivating example: the message `character '[' is invalid [see docs]` of kind `k` is split after
+`invalid`; the reported kind is `see docs] [k` -/
+example : matcher (header ⟨"a.yml".toList, 1, 2, "character '[' is invalid [see docs]".toList, "k".toList⟩) =
+    some ⟨"a.yml".toList, 1, 2, "character '[' is invalid".toList, "see docs] [k".toList⟩ := by
+  have hh : header ⟨"a.yml".toList, 1, 2, "character '[' is invalid [see docs]".toList, "k".toList⟩ =
+      header ⟨"a.yml".toList, 1, 2, "character '[' is invalid".toList, "see docs] [k".toList⟩ := by decide
+  rw [hh]
+  exact roundtrip _ (faithful_of_check (by decide))
+
+/-! ### (c) -/
+
+/-- any line with a character that `.` does not match (`\n`, `\r`, U+2028, U+2029) is rejected as a whole -/
+theorem nondot_rejected (line : List Char) (h : ∃ c ∈ line, dot c = false) : matcher line = none := by
+  unfold matcher
+  rw [matchFile_none_of_nondot line [] h]; rfl
+
+/-- (c), stronger form: a line break in the message makes the matcher reject the header (no `FileOk` needed) -/
+theorem linebreak_rejected (d : Diag) (h : ∃ c ∈ d.msg, dot c = false) : matcher (header d) = none := by
+  apply nondot_rejected
+  obtain ⟨c, hc, hd⟩ := h
+  exact ⟨c, by simp [header, hc], hd⟩
+
+/-- (c) as stated -/
+theorem linebreak_breaks : linebreak_breaks_statement := by
+  intro d _ h
+  obtain ⟨c, hc, rfl⟩ := h
+  rw [linebreak_rejected d ⟨'\n', hc, by decide⟩]
+  exact fun h => nomatch h
+
+example : matcher (header ⟨"a.yml".toList, 1, 2, "invalid CRON format \"0 0\n* * *\"".toList, "events".toList⟩) = none :=
+  linebreak_rejected _ ⟨'\n', by decide, by decide⟩
+
+/-! ### (d), (e) -/
+
+/-- (d) -/
+theorem snippet : snippet_statement := by
+  intro src line col
+  split
+  · trivial
+  · rename_i l h
+    unfold snippetLine at h
+    split at h
+    · cases h
+    · rename_i hguard
+      split at h
+      · cases h
+      · rename_i l' hget
+        split at h
+        · cases h
+        · rename_i hcol
+          simp only [Option.some.injEq] at h
+          subst h
+          obtain ⟨h1, h2, h3⟩ := getLine_some hget
+          exact ⟨h1, h2, by omega, h3⟩
+
+example : snippetLine [97, 10, 98, 99, 13, 10, 100] 2 3 = some [98, 99] := by decide
+example : snippetLine [97, 10, 98, 99, 13, 10, 100] 2 4 = none := by decide
+example : snippetLine [97, 10, 98, 99, 13, 10, 100] 4 1 = none := by decide
+
+/-- (e) -/
+theorem split_lines : split_lines_statement :=
+  fun src => ⟨splitLines_no_lf src, splitLines_sum_le src⟩
+
+example : splitLines [97, 10, 98, 99, 13, 10, 10, 100] = [[97], [98, 99], [], [100]] := by decide
 
 end AL.C16
